@@ -162,6 +162,7 @@ func c17Values(c *mon.Ctx, r *mon.Rand) {
 	nops := r.Range(5, 50)
 	twinSpecs := nops%3 == 0
 	scribble := nops%2 == 0
+	bursted := false
 	panicked := c.Guard("panic-prometheus", desc, func() {
 		for i := 0; i < nops; i++ {
 			s := scs[r.Intn(len(scs))]
@@ -220,6 +221,19 @@ func c17Values(c *mon.Ctx, r *mon.Rand) {
 				given := tally.ValueBuckets(append([]float64(nil), sp...))
 				s.s.Histogram(fam, given).RecordValue(x)
 				ops = append(ops, fmt.Sprintf("%s%v.Histogram(%s,%v).RecordValue(%v)", s.prefix, s.tags, fam, sp, x))
+				if !bursted && r.Chance(1, 25) {
+					// a burst: more samples in one bucket within one report interval
+					// than any 16-bit quantity holds
+					bursted = true
+					n := r.Range(65537, 70000)
+					h := s.s.Histogram(fam, given)
+					for k := 0; k < n; k++ {
+						h.RecordValue(x)
+						m.Samples = append(m.Samples, x)
+					}
+					ops = append(ops, fmt.Sprintf("... and %d more times", n))
+					c.Event("histogram-bursts-above-65536-samples", 1)
+				}
 				if scribble {
 					// the caller re-uses its slice for something else; the series of
 					// another tag value set, created later, still has these bounds
